@@ -22,6 +22,7 @@ type HarnessSpec struct {
 	Preempt   [2]int           `json:"preempt"`
 	InitDict  bool             `json:"init_dict"`
 	Skip      string           `json:"skip,omitempty"` // "quick" => thorough only
+	Whitebox  bool             `json:"whitebox,omitempty"`
 	Summarise []string         `json:"summarise,omitempty"`
 	What      string           `json:"what"`
 }
@@ -163,6 +164,14 @@ func cmdRun(args []string) int {
 		}
 		pkgPath := repoModule + "/" + hs.Pkg
 		fn := P.Func(pkgPath, hs.Name)
+		if fn == nil && hs.Whitebox && len(droppedHarness) > 0 {
+			// a white-box harness names unexported parts of the package; when those are renamed its file no
+			// longer compiles and is left out: noted, not counted against the property
+			note := fmt.Sprintf("NOTE: white-box harness %s left out (its file no longer compiles against this tree); the obligation it carries is not checked in this run", hs.Name)
+			fmt.Println(note)
+			rep.Notes = append(rep.Notes, note)
+			continue
+		}
 		if fn == nil {
 			msg := fmt.Sprintf("harness %s not found in %s", hs.Name, pkgPath)
 			for f, e := range droppedHarness {
